@@ -290,6 +290,19 @@ def run(ctx):
                         good = True
             chk.ob('Q3', '%s:lookup-key' % name, good, ds.where(), ds.name,
                    '%s must be asked about %s()' % (api, idq), how='%s(%s(), ...)' % (api, idq))
+        # queries that FAIL when their buffer is too small (getcwd -> ERANGE, ttyname_r, getlogin_r, gethostname): the
+        # buffer they are given is a local array of the system's limit, never the result buffer, whose size is the
+        # configurable data-source limit (a long working directory must be cut, not lost)
+        for f, c in calls:
+            if c['callee'] == 'getcwd' and name == 'cwd':
+                b0 = decl_of(arg(c, 0))
+                cap = next((x.get('size') for x in f.local_decls() if b0 is not None and x['id'] == b0['id'] and 'arrayLen' in x), None)
+                okb = cap is not None and cap >= 4096
+                chk.ob('Q3', 'cwd:query-buffer-holds-any-path', okb, c.where(), f.name,
+                       'getcwd() is given %s (%s bytes): a working directory longer than that makes the call fail with ERANGE '
+                       'and the directory is reported as an error instead of being cut to the limit' % (
+                           render(arg(c, 0)), cap if cap is not None else 'the result buffer, i.e. datasource_message_max_length + 1'),
+                       how='local array of %s bytes (PATH_MAX + 1)' % cap)
         # ---- Q4 ----------------------------------------------------------------------------
         if name in ('uid', 'euid', 'gid', 'egid', 'pid', 'ppid', 'sid', 'tty_uid', 'tid_kernel', 'timestamp', 'timestamp_us'):
             convs = []
